@@ -44,7 +44,7 @@ def parts(tier: str) -> List[Part]:
 def run_case(case: Dict[str, Any]) -> Outcome:
     out = Outcome()
     out.clauses_checked = ["C17.a", "C17.b", "C17.c"]
-    res = (procman.run_manager_hosted if case.get("hosted") else procman.run_manager)(case["W"], case["mf"], case["h"], case["sd"], case.get("slow", ()))
+    res = (procman.run_manager_hosted if case.get("hosted") else procman.run_manager)(case["W"], case["mf"], case["h"], case["sd"], case.get("slow", ()), pidpool=case.get("pidpool", 0))
     an = pc.analyse(case["W"], case["mf"], res, out, "C17")
     cl = pc.classify(case, res, an)
     out.nontrivial = bool(cl)
